@@ -799,7 +799,23 @@ func (e *wEngine) loadMask(f *ssa.Function, ld *ssa.UnOp) wmask {
 		} else if e.why[ld] == "" {
 			e.why[ld] = e.why[a.X]
 		}
-		return contentsOf(base, e.storedF[k])
+		res := contentsOf(base, e.storedF[k])
+		// a local struct variable that was assigned a whole struct value (the spill of a by-value
+		// parameter or receiver, `x := *p`): its fields hold what that value's fields held — a
+		// slice field of the copy still points into the original's backing array
+		if al, isLocal := a.X.(*ssa.Alloc); isLocal && al.Referrers() != nil {
+			for _, r := range *al.Referrers() {
+				if st, isSt := r.(*ssa.Store); isSt && st.Addr == ssa.Value(al) {
+					m := e.mask(st.Val)
+					all := m.obj | m.ref
+					res = res.or(wmask{all, all})
+					if all != 0 && e.why[ld] == "" {
+						e.why[ld] = "field of a local copy of " + describeVal(st.Val)
+					}
+				}
+			}
+		}
+		return res
 	case *ssa.IndexAddr:
 		base := e.mask(a.X)
 		if e.why[ld] == "" {
